@@ -920,7 +920,9 @@ func conj(a ...MalType) (MalType, error) {
 		}
 		return List{Val: append(new_slc, seq.Val...)}, nil
 	case Vector:
-		new_slc := append(seq.Val, a[1:]...)
+		// cap the slice so that append copies instead of writing into spare
+		// capacity that other vectors derived from the same one may share
+		new_slc := append(seq.Val[:len(seq.Val):len(seq.Val)], a[1:]...)
 		return Vector{Val: new_slc}, nil
 	case HashMap:
 		if len(a)%2 != 1 {
